@@ -1777,7 +1777,7 @@ def _apply_cumulative(
             na_rep = _null_value_for_numpy_type(result.dtype)
         result[np.asarray(group_key) < 0] = na_rep
 
-    elif orig_dtype.kind in "mM":
+    if orig_dtype.kind in "mM" and not counting:
         result = result.astype(orig_dtype)
 
     return result
